@@ -66,6 +66,11 @@ def gen_vparse(tier, rng):
         add('1.2.3-' + 'a' * (L - 6)); add('1.2.3' + 'a' * (L - 5)); add('1.2.3+' + 'b' * (L - 6))
         add('1.2.3-' + 'a' * (L - 8) + 'é'); add('1.2.3-' + 'a' * (L - 9) + '\U0001F600'); add(' ' * (L - 5) + '1.2.3'); add('1.2.3' + ' ' * (L - 5))
         add('1.2.3-' + '.'.join(['ab'] * ((L - 6) // 3)))
+    # over-long, several lines, multi-byte scalars on the LAST line before its last scalar (bytes vs characters in the column of location())
+    for pre in ('1.2.3-\u00e9\n', '1.2.3\n', 'v1.2.3\r\n\r\n  ', '\n\n', 'a\nb\n', '\u00e9\n\u00e9\n'):
+        for mid in ('\u00e9', '\u20ac.\U0001F600', '1.2.3-\u00e9', '\u00e9\u00e9\u00e9', 'x\u00e9y'):
+            for tail in ('a' * 260, '0' * 250 + '+b', 'a' * 300 + '\u00e9', 'b' * 257):
+                add(pre + mid + tail)
     # longer than MAX_LENGTH in bytes but not in characters (and the other way round is impossible): the limit counts UTF-8 bytes
     for body in ('\u00e9' * 126, '\u00e9' * 128, 'a' * 200 + '\u20ac' * 19, '\U0001F600' * 63, 'a' * 3 + '\U0001F600' * 62, '\u00e9' * 125, 'a' * 248 + '\u00e9', 'a' * 249 + '\u00e9', 'a' * 246 + '\u20ac\u20ac'):
         add('1.2.3-' + body); add('1.2.3+' + body); add(' 1.2.3-' + body + ' '); add('900719925474100.0.0-' + body[:len(body) * 2 // 3]); add(body)
